@@ -56,7 +56,35 @@ def st_history(draw, maxn):
             out.append(dict(draw(st.sampled_from([e for e in out if isinstance(e, dict)]))))  # duplicate submission
         if draw(st.integers(0, 11)) == 0:
             out.append(["reopen"])  # the relay is restarted on the same database (LMDB; ignored elsewhere)
-    return out
+    # runs of consecutive submissions for DIFFERENT addresses are sometimes processed concurrently
+    res = []
+    i = 0
+    while i < len(out):
+        m = draw(st.sampled_from([1, 1, 1, 2, 3, 4]))
+        run = out[i:i + m]
+        ok = m > 1 and len(run) == m and all(isinstance(e, dict) for e in run)
+        if ok:
+            addrs = [R.address(e) for e in run]
+            ids = [e["id"] for e in run]
+            ok = (len(set(ids)) == len(ids) and all(a is not None for a in addrs) and len(set(addrs)) == len(addrs)
+                  and not any(e["id"] in [x["id"] for x in out[:i] if isinstance(x, dict)] for e in run))
+        if ok:
+            res.append(["together", run])
+            i += m
+        else:
+            res.append(out[i])
+            i += 1
+    if draw(st.integers(0, 5)) == 0:
+        # motif: several addresses with a stored version each get their newer versions at the same moment
+        k = draw(st.integers(3, 8))
+        kinds = [draw(st.sampled_from([0, 3, 10000, 30000, 30000])) for _ in range(k)]
+        first = [mk(100 + j, j % 2, kinds[j], ["d", "m%d" % j], TSG[0]) for j in range(k)]
+        second = [mk(120 + j, j % 2, kinds[j], ["d", "m%d" % j], TSG[draw(st.integers(1, 3))]) for j in range(k)]
+        pairs = {}
+        for f, g in zip(first, second):
+            pairs.setdefault(R.address(f), (f, g))   # one pair per address
+        res += [f for f, g in pairs.values()] + [["together", [g for f, g in pairs.values()]]]
+    return res
 
 
 def check_step(backend, before, after, ev, accepted, viol, step):
@@ -117,7 +145,7 @@ def interesting(before, ev):
 async def run_burst(history):
     """LMDB: the whole history is submitted before the writer thread applies anything (a backlogged writer)"""
     viol = []
-    history = [e for e in history if isinstance(e, dict)]
+    history = [e for x in history for e in (x[1] if isinstance(x, list) and x[0] == "together" else [x]) if isinstance(e, dict)]
     async with H.Rig("kv", validators=[]) as rig:
         half = len(history) // 2
         for ev in history[:half]:
@@ -169,10 +197,37 @@ async def run_history(backend, history):
     viol = []
     nt = False
     labels = ["backend:" + backend]
-    rig = H.Rig(backend, validators=[])
+    together = any(isinstance(x, list) and x[0] == "together" for x in history)
+    rig = H.Rig(backend, validators=[], file_db=True if (backend == "sql" and together) else None)
     await rig.open()
     try:
         for step, ev in enumerate(history):
+            if isinstance(ev, list) and ev[0] == "together":
+                # different addresses, all new ids: whatever the interleaving, each member's own conditions hold
+                import asyncio
+
+                from props.c08 import _add_raw
+
+                group = ev[1]
+                labels.append("together:%d" % len(group))
+                before = await rig.dump()
+                results = await asyncio.gather(*[_add_raw(rig, e) for e in group])
+                rig.pump()
+                await rig.settle()
+                after = await rig.dump()
+                for e, (ok, reason) in zip(group, results):
+                    nt = nt or interesting(before, e)
+                    v2 = []
+                    # each member is judged against the store without the other members' effects: removals caused by the
+                    # others are filtered out (they are legitimate for THEIR address and checked in their own turn)
+                    mine_before = {i: x for i, x in before.items() if R.address(x) == R.address(e) or i in after}
+                    check_step(backend, mine_before, after, e, ok, v2, step)
+                    for v in v2:
+                        v["sig"] += ":concurrent"
+                    viol.extend(v2)
+                if viol:
+                    break
+                continue
             if isinstance(ev, list):
                 if backend == "kv":
                     path = rig.path
